@@ -223,6 +223,25 @@ PARAM_NOT_FORWARDED_OK = {
 NOT_CONFIG = {"check_validity"}  # when to validate, not what to compute: forwarded or not by each constructor's own design (14 reviewed sites differ)
 
 
+def all_fields(ctx: Ctx, ci, _seen=None) -> list[str]:
+    """Dataclass fields of a class, inherited ones first (the synthesized __init__'s parameters)."""
+    _seen = _seen or set()
+    if ci.qualname in _seen:
+        return []
+    _seen.add(ci.qualname)
+    out: list[str] = []
+    for b in (ci.base_names() if callable(getattr(ci, "base_names", None)) else getattr(ci, "base_names", [])):
+        try:
+            q = ctx.prog.resolve_name(ci.module, ast.parse(b, mode="eval").body)
+        except SyntaxError:
+            q = None
+        base = ctx.prog.classes.get(q or "")
+        if base is not None:
+            out += [f for f in all_fields(ctx, base, _seen) if f not in out]
+    out += [f for f in ci.fields() if f not in out]
+    return out
+
+
 def rule_params_forwarded(ctx: Ctx, rep: Report, rule: str, module_prefixes: tuple[str, ...], floor: int) -> None:
     """A function that takes a parameter and calls a btclib function (or
     constructor) with a parameter of the same name hands it on. Across the
@@ -250,7 +269,7 @@ def rule_params_forwarded(ctx: Ctx, rep: Report, rule: str, module_prefixes: tup
                     continue
                 init = ci.methods.get("__init__")
                 if init is None:
-                    ps, kwonly = ci.fields(), set()
+                    ps, kwonly = all_fields(ctx, ci), set(all_fields(ctx, ci)) - set(ci.fields())  # inherited fields: by keyword (order across bases is theirs)
                 else:
                     ps, kwonly = init.params()[1:], {x.arg for x in init.node.args.kwonlyargs}
                 cname = ci.name
